@@ -81,7 +81,7 @@ fn lists(tier: Tier) -> Vec<Option<Vec<u8>>> {
     }
     // ids in a value relation to a held one (5: the first 8 bytes of credential 0's id, 6: that id
     // with one more byte, 7: the empty id) – each names no credential
-    for rel in 5u8..8 {
+    for rel in [5u8, 6, 7, 10, 11, 12, 13] {
         v.push(Some(vec![rel]));
         for k in 0..4u8 {
             v.push(Some(if (rel + k) % 2 == 0 { vec![rel, k] } else { vec![k, rel] }));
@@ -108,6 +108,18 @@ fn list_ids(l: &Option<Vec<u8>>) -> Option<Vec<Vec<u8>>> {
                 5 => ident(0)[..8].to_vec(),
                 6 => [ident(0), vec![0x00]].concat(),
                 7 => vec![],
+                // textual presentations of credential 0's id, as bytes: base64url, hex, padded
+                // base64; and the id reversed - each is just another byte string that names nothing
+                10 => crate::oracles::b64::url_nopad(&ident(0)).into_bytes(),
+                11 => hex(&ident(0)).into_bytes(),
+                12 => {
+                    let mut t = crate::oracles::b64::url_nopad(&ident(0)).replace('-', "+").replace('_', "/");
+                    while t.len() % 4 != 0 {
+                        t.push('=');
+                    }
+                    t.into_bytes()
+                }
+                13 => ident(0).into_iter().rev().collect(),
                 100..=255 => [vec![0xE0, i], vec![0x5A; 14]].concat(),
                 _ => ident(UNKNOWN),
             })
@@ -136,6 +148,13 @@ pub fn cases(tier: Tier) -> Vec<Case> {
                                     v.push(Case { content, newest_first, rp, list: list.clone(), op: op.into(), hints, empty_ok: false, prf: true });
                                 }
                             }
+                        }
+                    }
+                }
+                if rp < 3 {
+                    for newest_first in [true, false] {
+                        for op in ["client-assert", "client-register"] {
+                            v.push(Case { content, newest_first, rp, list: list.clone(), op: op.into(), hints: 0, empty_ok: false, prf: false });
                         }
                     }
                 }
@@ -360,9 +379,103 @@ fn eval_store(c: &Case) -> (Vec<Finding>, String) {
     }
 }
 
+/// The same clauses one level up: a `Client` in front of the authenticator, requests as WebAuthn
+/// options (allowCredentials / excludeCredentials) from an origin of the RP.  Whatever the client
+/// does to the lists on the way down, the outcome obeys the lists the relying party sent.
+fn eval_client(c: &Case) -> (Vec<Finding>, String) {
+    use passkey_client::{Client, DefaultClientData};
+    let case = serde_json::to_value(c).unwrap();
+    let mut fs = vec![];
+    let mut rs = RefStore::with(content_items(c.content));
+    rs.newest_first = c.newest_first;
+    let reference = rs.clone();
+    let store = Shared::new(rs);
+    let log = Log::new();
+    let auth = Authenticator::new(Aaguid::new_empty(), Logging { inner: store.clone(), log: log.clone() }, ScriptedUv::consenting(log.clone()));
+    let mut client = Client::new(auth);
+    let rp = RPS[c.rp as usize];
+    let url = url::Url::parse(&format!("https://login.{rp}/")).expect("harness url");
+    let ids = list_ids(&c.list);
+    let before = store.recs();
+    let nonempty: Option<Vec<Vec<u8>>> = ids.clone().filter(|l| !l.is_empty());
+    let descs: Option<Vec<_>> = nonempty.as_ref().map(|l| l.iter().map(|i| descriptor(i)).collect());
+    let listed = reference.lookup(descs.as_deref(), rp);
+    let mut bad = |kind: &str, d: String| fs.push(Finding::new(format!("op={}/kind={kind}", c.op), d, case.clone()));
+    let outcome;
+    if c.op == "client-assert" {
+        let opts = request_options(Auth { rp_id: Some(rp.into()), allow: ids.clone(), ..Default::default() });
+        match par::catch(|| block_on(client.authenticate(&url, opts, DefaultClientData))) {
+            Err(p) => {
+                bad("panic", format!("authenticate panicked: {p}"));
+                outcome = "panic".to_string();
+            }
+            Ok(Ok(resp)) => {
+                outcome = "client-assert:ok".into();
+                let used = resp.raw_id.to_vec();
+                match before.iter().find(|r| r.id == used) {
+                    None => bad("credential-not-in-store", format!("assertion names {} which is not stored", hex(&used))),
+                    Some(r) => {
+                        if r.rp != rp {
+                            bad("credential-of-other-rp", format!("assertion for {rp:?} made with a credential bound to {:?}", r.rp));
+                        }
+                        if let Some(l) = &nonempty {
+                            if !l.contains(&used) {
+                                bad("credential-not-in-allow-list", format!("non-empty allowCredentials, but the credential used ({}) is not named in it", hex(&used)));
+                            }
+                        } else if listed.first().map(|p| p.credential_id.to_vec()) != Some(used.clone()) {
+                            bad("not-first-listed", format!("absent/empty allowCredentials: store lists {:?} first for the RP, assertion used {}", listed.first().map(|p| hex(&p.credential_id)), hex(&used)));
+                        }
+                    }
+                }
+                if listed.is_empty() {
+                    bad("assertion-without-eligible-credential", "the contract lists no credential for this RP/list, yet an assertion was produced".into());
+                }
+            }
+            Ok(Err(e)) => {
+                outcome = "client-assert:err".into();
+                if !listed.is_empty() {
+                    bad("eligible-credential-not-used", format!("{} eligible credential(s) and consent, but authenticate failed with {e:?}", listed.len()));
+                }
+            }
+        }
+    } else {
+        let opts = creation_options(Reg { rp_id: Some(rp.into()), exclude: ids.clone(), user_id: vec![7], ..Default::default() });
+        let r = par::catch(|| block_on(client.register(&url, opts, DefaultClientData)));
+        let after = store.recs();
+        let should_exclude = nonempty.is_some() && !listed.is_empty();
+        match r {
+            Err(p) => {
+                bad("panic", format!("register panicked: {p}"));
+                outcome = "panic".to_string();
+            }
+            Ok(Ok(_)) => {
+                outcome = "client-register:ok".into();
+                if should_exclude {
+                    bad("excluded-credential-not-refused", "excludeCredentials names a credential held for the same RP, yet a credential was created".into());
+                }
+                if after.len() != before.len() + 1 {
+                    bad("store-delta", format!("{} → {}", before.len(), after.len()));
+                }
+            }
+            Ok(Err(e)) => {
+                outcome = "client-register:err".into();
+                if !should_exclude {
+                    bad("refused-without-excluded-credential", format!("nothing in excludeCredentials is held for {rp:?}, yet registration failed with {e:?}"));
+                }
+                if after != before {
+                    bad("refused-but-store-changed", "store changed by a refused registration".into());
+                }
+            }
+        }
+    }
+    (fs, outcome)
+}
+
 pub fn eval(c: &Case) -> (Vec<Finding>, String) {
     if c.op.starts_with("store:") {
         eval_store(c)
+    } else if c.op.starts_with("client-") {
+        eval_client(c)
     } else {
         eval_authenticator(c)
     }
@@ -488,7 +601,7 @@ pub fn run(ctx: &Ctx) -> Result<Run, String> {
     let n = cs.len() as u64 + csched;
     let mut run = Run::from_stats(
         "model_checking",
-        "universe of 4 credentials (2 RPs x 2, equal user handles across RPs): all 16 store contents x RP in {a, b, RP without credentials, a in another letter case, a with a trailing dot} x lists {absent, empty, sub-lists of the 4 ids + 1 unknown id (size <= 2 in both orders quick, all 31 thorough), and ids in a value relation to a held id (a strict prefix of it, it plus one byte, the empty id) alone and next to each of the 4 ids, and lists of 64..129 entries in which a held id sits behind, in front of or between runs of 64 unknown ids} x transports hints on the descriptors {none, disjoint from the authenticator's, overlapping, mixed, empty} x {no extension, PRF inputs per credential naming every id of the universe on an hmac-secret authenticator} x listing order {newest, oldest first} for get_assertion (allow list) and make_credential (exclude list) on the real Authenticator over the contract store; and the same contents/lists/RPs against find_credentials of MemoryStore, Option<Passkey> and their four lock wrappers (wrappers compared with the store they wrap); plus every interleaving of a registration whose exclude list names a held credential with a concurrent assertion over Arc<Mutex<_>> and Arc<RwLock<_>> (must be refused in every schedule). Non-trivial = distinct case with a non-empty store",
+        "universe of 4 credentials (2 RPs x 2, equal user handles across RPs): all 16 store contents x RP in {a, b, RP without credentials, a in another letter case, a with a trailing dot} x lists {absent, empty, sub-lists of the 4 ids + 1 unknown id (size <= 2 in both orders quick, all 31 thorough), and ids in a value relation to a held id (a strict prefix of it, it plus one byte, the empty id, its base64url / hex / padded base64 text as bytes, the id reversed) alone and next to each of the 4 ids, and lists of 64..129 entries in which a held id sits behind, in front of or between runs of 64 unknown ids} x transports hints on the descriptors {none, disjoint from the authenticator's, overlapping, mixed, empty} x {no extension, PRF inputs per credential naming every id of the universe on an hmac-secret authenticator} x listing order {newest, oldest first} for get_assertion (allow list) and make_credential (exclude list) on the real Authenticator over the contract store; the same contents x lists x RPs {a, b, none} x listing orders one level up, as allowCredentials / excludeCredentials of WebAuthn requests through a real Client from an origin of the RP; and the same contents/lists/RPs against find_credentials of MemoryStore, Option<Passkey> and their four lock wrappers (wrappers compared with the store they wrap); plus every interleaving of a registration whose exclude list names a held credential with a concurrent assertion over Arc<Mutex<_>> and Arc<RwLock<_>> (must be refused in every schedule). Non-trivial = distinct case with a non-empty store",
         true,
         stats,
     );
